@@ -51,6 +51,10 @@ def classify(rc, stderr):
     m = re.search(r"([^\s:]+):(\d+):\d+: runtime error: ([^\n]+)", stderr)
     if m:
         return "UBSan: %s at %s:%s" % (m.group(3)[:120], m.group(1), m.group(2)), "ubsan@%s" % os.path.basename(m.group(1))
+    m = re.search(r"([^\s:]+):(\d+): ([^\n]*?): Assertion '([^\n]+)' failed", stderr)
+    if m:
+        return "libstdc++ precondition violated (%s:%s, %s): %s" % (os.path.basename(m.group(1)), m.group(2), m.group(3)[-90:], m.group(4)[:120]), \
+               "glibcxx-assert@%s:%s" % (os.path.basename(m.group(1)), m.group(2))
     if "terminate called" in stderr:
         mm = re.search(r"terminate called[^\n]*\n?[^\n]*", stderr)
         return "std::terminate: %s" % (mm.group(0)[:200].replace("\n", " ") if mm else ""), "terminate"
